@@ -51,6 +51,15 @@ CHECKS = {
         'ref': 'DESIGN.md section 3 C12', 'note': NOTE_COMMON,
         'technique': 'deterministic simulation: line-noise / adversarial-frame injection + sanitizers + bounded-liveness probe',
     },
+    'C13': {
+        'text': 'Seeded structure-aware mutations of generated valid configuration triples, raw noise, and file faults (missing file, truncation at byte k, EIO after k bytes) on the '
+                'in-memory file layer; the start runs the real threads against the simulated interface on simulated time and the whole stop path on error. Oracles: returns 0/1 '
+                '(deadlock, self-deadlock and unbounded wait are decided by the scheduler, not by a timeout), sanitizers, locks released, threads joined, configuration FILE closed, '
+                'library-attributed live heap back to the warm-up level, and a following start with the valid configuration works. The input-generation part is ordinary generation; '
+                'the simulation contributes threads, time, the file faults and the lock/heap/thread bookkeeping.',
+        'ref': 'DESIGN.md section 3 C13', 'note': NOTE_COMMON,
+        'technique': 'deterministic simulation: in-memory file layer with faults + lock/thread/heap bookkeeping around start/stop',
+    },
     'C16': {
         'text': 'Seeded sequences of 2-5 sessions in one process (debug / pointer / simulated serial device / silent interface / unopenable device / missing configuration file, '
                 'auto-flush on or off, stop-while-stopped, start-while-running) with activity in between. Oracles: start result, shutdown transcript, thread create/join '
